@@ -62,10 +62,13 @@ func runC14(e *Engine, g G, o RunOpt) RunInfo {
 	sc.Client.Secret = genFrom(g, "secret", secretAlphabet, 1, 20)
 	sc.Client.OAuth = g.Pct("oauth", 35)
 	sc.TLS = g.Pct("tls", 25)
-	nconn := 1 + g.Weighted("history", 7, 3)
+	// with a resumable stream-managed session pending, a refusal on the reconnection is as permanent as ever
+	sc.Client.SM = g.Pct("sm", 30)
+	nconn := 1 + g.Weighted("history", 7, 3+3*btoi(sc.Client.SM))
 	for i := 0; i < nconn; i++ {
 		sv := DefaultNeg()
 		sv.Mechs = c14Mechs(g, "mech")
+		sv.SM = sc.Client.SM
 		if g.Pct("foreign-mechanism-children", 15) {
 			// ... nor is a child of another namespace inside the SASL list
 			sv.ForeignMechKids = []string{"PLAIN", "X-OAUTH2"}
